@@ -70,9 +70,15 @@ def _run_chunk(job):
     wd = par.workdir()
     files = []
     for w in (0, 1, 2):
-        p = os.path.join(wd, "%s_%d.txt" % (kind, w))
-        if not os.path.exists(p):
-            mat.write_text(p, dataset(kind, w))
+        if kind.startswith("netcdf-"):
+            # the same dataset as NetCDF files whose variable metadata names a unit the plots have to print: "%", "m/s", "^oC"
+            p = os.path.join(wd, "%s_%d.nc" % (kind.replace("%", "pct").replace("/", "per").replace("^", "deg"), w))
+            if not os.path.exists(p):
+                mat.write_netcdf(p, dict(dataset("full", w), variable={"variable": "RH", "units": kind[len("netcdf-"):]}))
+        else:
+            p = os.path.join(wd, "%s_%d.txt" % (kind, w))
+            if not os.path.exists(p):
+                mat.write_text(p, dataset(kind, w))
         files.append(p)
     out = []
     signal.signal(signal.SIGALRM, _alarm)
@@ -128,13 +134,15 @@ def run(ctx):
             buckets.setdefault((c["v"], c["t"], c["x"] in ("obs", "fcst")), []).append(c)
         per = max(1, 1100 // len(buckets))
         variants = [c for key in sorted(buckets) for c in rng.sample(buckets[key], min(len(buckets[key]), per))]
-        kinds = ["full", "missing-slice", "single-leadtime"]
+        kinds = ["full", "missing-slice", "single-leadtime", "netcdf-%"]
     else:
-        kinds = ["full", "missing-slice", "single-time", "single-location", "single-leadtime"]
+        kinds = ["full", "missing-slice", "single-time", "single-location", "single-leadtime", "netcdf-%", "netcdf-m/s", "netcdf-^oC"]
     jobs = []
     combos = cross + variants
     for n, kind in enumerate(kinds):
-        sel = combos if (ctx.tier != "quick" or kind == "full") else rng.sample(combos, len(combos) // 3)
+        sel = combos if (ctx.tier != "quick" or kind == "full") else rng.sample(combos, len(combos) // (6 if kind.startswith("netcdf-") else 3))
+        if kind.startswith("netcdf-") and ctx.tier != "quick":
+            sel = rng.sample(combos, len(combos) // 8)
         jobs += [(kind, sel[i:i + 40]) for i in range(0, len(sel), 40)]
     counts = {}
     crashes = {}
